@@ -398,9 +398,9 @@ pub fn run_scenario(
                             merlin: mev,
                             group: gev,
                             info: json!({"member": mi, "n": n, "t": t, "m": m, "cap": cap, "label": label, "seeded": seed.is_some(), "bytes": bytes, "reference": true,
-                                "commits": stmt.commitments_compressed.iter().map(|c| c.as_fixed_bytes().to_vec()).collect::<Vec<_>>(),
-                                "H": stmt.generators.h_base_compressed().as_fixed_bytes().to_vec(),
-                                "G": stmt.generators.g_bases_compressed().iter().map(|c| c.as_fixed_bytes().to_vec()).collect::<Vec<_>>()}),
+                                "commits": stmt.commitments.iter().map(|c| c.compress().as_fixed_bytes().to_vec()).collect::<Vec<_>>(),
+                                "H": stmt.generators.h_base().compress().as_fixed_bytes().to_vec(),
+                                "G": stmt.generators.g_bases().iter().map(|c| c.compress().as_fixed_bytes().to_vec()).collect::<Vec<_>>()}),
                         });
                     }
                     RangeProof::<P>::from_bytes(&bytes).ok()
@@ -433,9 +433,9 @@ pub fn run_scenario(
                                 group: gev,
                                 info: json!({"member": mi, "n": n, "t": t, "m": m, "cap": cap, "label": label,
                                     "seeded": seed.is_some(), "bytes": p.to_bytes(), "reference": false,
-                                    "commits": stmt.commitments_compressed.iter().map(|c| c.as_fixed_bytes().to_vec()).collect::<Vec<_>>(),
-                                    "H": stmt.generators.h_base_compressed().as_fixed_bytes().to_vec(),
-                                    "G": stmt.generators.g_bases_compressed().iter().map(|c| c.as_fixed_bytes().to_vec()).collect::<Vec<_>>()}),
+                                    "commits": stmt.commitments.iter().map(|c| c.compress().as_fixed_bytes().to_vec()).collect::<Vec<_>>(),
+                                    "H": stmt.generators.h_base().compress().as_fixed_bytes().to_vec(),
+                                    "G": stmt.generators.g_bases().iter().map(|c| c.compress().as_fixed_bytes().to_vec()).collect::<Vec<_>>()}),
                             });
                         }
                         Some(p)
@@ -712,9 +712,10 @@ pub fn call_info_m(stmts: &[RangeStatement<P>], vproofs: &[RangeProof<P>], label
             "m": stmts[x].commitments.len(), "cap": stmts[x].generators.max_aggregation_factor(),
             "proms": stmts[x].minimum_value_promises.iter().map(|p| p.map(|v| v.to_string())).collect::<Vec<_>>(),
             "label": labels.get(x), "bytes": vproofs[x].to_bytes(),
-            "commits": stmts[x].commitments_compressed.iter().map(|c| c.as_fixed_bytes().to_vec()).collect::<Vec<_>>(),
-            "H": stmts[x].generators.h_base_compressed().as_fixed_bytes().to_vec(),
-            "G": stmts[x].generators.g_bases_compressed().iter().map(|c| c.as_fixed_bytes().to_vec()).collect::<Vec<_>>(),
+            // the encodings of the commitment POINTS (not the statement's cached copies: those are what is under test)
+            "commits": stmts[x].commitments.iter().map(|c| c.compress().as_fixed_bytes().to_vec()).collect::<Vec<_>>(),
+            "H": stmts[x].generators.h_base().compress().as_fixed_bytes().to_vec(),
+            "G": stmts[x].generators.g_bases().iter().map(|c| c.compress().as_fixed_bytes().to_vec()).collect::<Vec<_>>(),
             "seeded": stmts[x].seed_nonce.is_some(),
             "seed": stmts[x].seed_nonce.map(|s| s.as_bytes().to_vec()),
         })).collect::<Vec<_>>()})
